@@ -131,3 +131,68 @@ Proof.
   replace (2 * 2 ^ Z.of_nat m - 1) with (2 * (2 ^ Z.of_nat m - 1) + 1) by lia.
   rewrite count_ones_succ_double by lia. lia.
 Qed.
+
+Lemma count_ones_add_high (m : nat) q r : 0 <= q -> 0 <= r < 2 ^ Z.of_nat m ->
+  count_ones (q * 2 ^ Z.of_nat m + r) = count_ones q + count_ones r.
+Proof.
+  intros Hq Hr. rewrite (count_ones_split m) by nia.
+  rewrite Z.div_add_l by lia. rewrite Z.div_small by lia.
+  rewrite (Z.add_comm (q * 2 ^ Z.of_nat m) r), Z_mod_plus_full, Z.mod_small by lia. rewrite Z.add_0_r. reflexivity.
+Qed.
+
+(* ------------------------------------------------------------------ masks, xor, log2 *)
+Lemma land_ones_mod h i : 0 <= h -> Z.land (2 ^ h - 1) i = i mod 2 ^ h.
+Proof.
+  intros Hh. rewrite Z.land_comm. rewrite <- Z.land_ones by lia. rewrite Z.ones_equiv. reflexivity.
+Qed.
+
+Lemma div_mul_add q p r : 0 <= r < p -> (q * p + r) / p = q.
+Proof. intros H. rewrite Z.div_add_l by lia. rewrite Z.div_small by lia. lia. Qed.
+
+Lemma mod_mul_add q p r : 0 <= r < p -> (q * p + r) mod p = r.
+Proof. intros H. rewrite Z.add_comm, Z_mod_plus_full. apply Z.mod_small. exact H. Qed.
+
+(* position of a leaf index i and of the leaf count n relative to the tree of height h that starts after a
+   leafs, a a multiple of 2^(h+1): the digits of i and n above h agree, digit h is 0 in i and 1 in n *)
+Lemma tree_position_bits h q a i n : 0 <= h -> 0 <= q -> a = q * 2 ^ (h + 1) ->
+  a <= i < a + 2 ^ h -> a + 2 ^ h <= n < a + 2 ^ (h + 1) ->
+  i / 2 ^ (h + 1) = q /\ n / 2 ^ (h + 1) = q /\ (i / 2 ^ h) mod 2 = 0 /\ (n / 2 ^ h) mod 2 = 1 /\
+  i mod 2 ^ h = i - a /\ n mod 2 ^ (h + 1) = n - a /\ n mod 2 ^ h = n - a - 2 ^ h.
+Proof.
+  intros Hh Hq Ea Hi Hn. rewrite pow2_succ in * by lia.
+  pose proof (pow2_pos h Hh) as Hp. set (p := 2 ^ h) in *.
+  assert (Ei : i = q * (2 * p) + (i - a)) by lia.
+  assert (En : n = q * (2 * p) + (n - a)) by lia.
+  assert (Ei2 : i = (2 * q) * p + (i - a)) by lia.
+  assert (En2 : n = (2 * q + 1) * p + (n - a - p)) by lia.
+  split; [rewrite Ei at 1; apply div_mul_add; lia|].
+  split; [rewrite En at 1; apply div_mul_add; lia|].
+  split; [rewrite Ei2 at 1; rewrite div_mul_add by lia; rewrite Z.mul_comm; apply Z.mod_mul; lia|].
+  split; [rewrite En2 at 1; rewrite div_mul_add by lia; rewrite Z.add_comm, Z.mul_comm, Z_mod_plus_full; reflexivity|].
+  split; [rewrite Ei2 at 1; apply mod_mul_add; lia|].
+  split; [rewrite En at 1; apply mod_mul_add; lia|].
+  rewrite En2 at 1; apply mod_mul_add; lia.
+Qed.
+
+Lemma log2_lxor_char h i n : 0 <= h -> 0 <= i -> 0 <= n ->
+  i / 2 ^ (h + 1) = n / 2 ^ (h + 1) -> (i / 2 ^ h) mod 2 = 0 -> (n / 2 ^ h) mod 2 = 1 ->
+  0 < Z.lxor i n /\ Z.log2 (Z.lxor i n) = h.
+Proof.
+  intros Hh Hi Hn Eq Bi Bn.
+  assert (Hx : 0 <= Z.lxor i n) by (apply Z.lxor_nonneg; tauto).
+  assert (Hhi : Z.lxor i n / 2 ^ (h + 1) = 0).
+  { rewrite <- Z.shiftr_div_pow2 by lia. rewrite Z.shiftr_lxor. rewrite !Z.shiftr_div_pow2 by lia.
+    rewrite Eq. apply Z.lxor_nilpotent. }
+  assert (Hbit : (Z.lxor i n / 2 ^ h) mod 2 = 1).
+  { rewrite <- Z.testbit_spec' by lia. rewrite Z.lxor_spec.
+    assert (Z.b2z (Z.testbit i h) = 0) as T1 by (rewrite Z.testbit_spec' by lia; exact Bi).
+    assert (Z.b2z (Z.testbit n h) = 1) as T2 by (rewrite Z.testbit_spec' by lia; exact Bn).
+    destruct (Z.testbit i h), (Z.testbit n h); cbn in *; lia. }
+  pose proof (pow2_pos h Hh) as Hp. pose proof (pow2_pos (h + 1) ltac:(lia)) as Hp1.
+  assert (Hlt : Z.lxor i n < 2 ^ (h + 1)).
+  { apply Z.div_small_iff in Hhi; lia. }
+  assert (Hge : 2 ^ h <= Z.lxor i n).
+  { destruct (Z.lt_ge_cases (Z.lxor i n) (2 ^ h)) as [L|]; [|lia].
+    rewrite Z.div_small in Hbit by lia. cbn in Hbit. lia. }
+  split; [lia|]. apply Z.log2_unique; [lia|]. change (Z.succ h) with (h + 1). lia.
+Qed.
